@@ -40,7 +40,14 @@ def fold_sample_init(repo, kind, debug=None, cn_region="REGION", long_reads=Fals
                alleles={"1": Obj(func_muts={Mut(9, "A>C")})})
     prof = Obj(cn_region=cn_region, sam_long_reads=long_reads, vcf_sample_idx=sample_idx) if profile else None
     me = Obj(_load_sam=loader("_load_sam"), _load_long_sam=loader("_load_long_sam"), _load_vcf=loader("_load_vcf"), _load_dump=load_dump,
-             _load_pscan=loader("_load_pscan"), _load_cn_region=rec("_load_cn_region", {100: 3}), _dump_alignments=rec("_dump_alignments"))
+             _load_pscan=loader("_load_pscan"), _load_cn_region=None, _dump_alignments=rec("_dump_alignments"))
+
+    def load_cn_region(*a, **k):
+        calls.append(("_load_cn_region", a, k))
+        me._dump_cn = {100: 3}          # the real routine fills the sample's table itself and returns it
+        return me._dump_cn
+
+    me._load_cn_region = load_cn_region
 
     def make_cov(norm, muts):
         calls.append(("_make_coverage", (norm, muts), {}))
